@@ -46,6 +46,9 @@ fn family(name: &str) -> GenCfg {
         "nofast" => GenCfg { strategy: 1, ..base },
         "wrap" => GenCfg { threads: (1, 3), hold: vec![8, 8, 9, 0], setgen: Some(0), ops: (2, 6), ..base },
         "steps" => GenCfg { threads: (2, 3), w: [8, 6, 3, 1, 6, 3, 1, 1, 0], hold: vec![0, 4, 7, 8, 12], ..base },
+        "solo" => GenCfg { threads: (2, 4), containers: 2, hold: vec![0, 0, 8, 9], w: [5, 2, 3, 1, 6, 4, 3, 3, 1], ..base },
+        "solochurn" => GenCfg { threads: (3, 5), ops: (1, 4), hold: vec![0, 0, 8], w: [5, 2, 3, 1, 6, 4, 2, 2, 1], ..base },
+        "solonofast" => GenCfg { threads: (2, 4), strategy: 1, w: [5, 2, 3, 1, 6, 4, 3, 3, 1], ..base },
         "churn" => GenCfg { threads: (3, 5), ops: (1, 3), hold: vec![0, 0, 8], ..base },
         // every load on the fallback path (no fast slots), writers mostly rcu/cas: helpers abound
         "helprcu" => GenCfg { threads: (3, 4), strategy: 1, w: [9, 4, 4, 1, 3, 2, 3, 6, 1], ops: (3, 7), with_null: false, ..base },
@@ -200,7 +203,12 @@ fn main() {
                     let mut rng = Rng::new(s);
                     let p = prog::generate(&mut rng, &gcfg);
                     let stick = [0u64, 30, 60, 85][rng.range(0, 4)];
-                    let o = run_one(&p, Policy::Random { rng: rng.clone(), stick }, &cfg);
+                    let pol = if fam.starts_with("solo") || get("--solo").is_some() {
+                        Policy::Solo { rng: rng.clone(), stick, after: rng.range(0, 400), who: rng.range(0, p.threads.len()), steps: 0, solo_steps: 0, done: false }
+                    } else {
+                        Policy::Random { rng: rng.clone(), stick }
+                    };
+                    let o = run_one(&p, pol, &cfg);
                     nviol += o.violations.len();
                     total_steps += o.taken.len();
                     n_exec += 1;
